@@ -224,6 +224,154 @@ def interleaved(mxi: int, a_ct: bool, a_tsf: bool, b_aborts: bool) -> bool:
 
 
 
+# ------------------------------------------------------------------------------------------------
+# the same, with REAL providers: octets in, octets out
+# ------------------------------------------------------------------------------------------------
+
+class _Tempfile(object):
+    @staticmethod
+    def TemporaryFile(*a, **k):
+        return pdu.cStringIO()
+
+
+def wire_of(msg_cid, maxlen=16384):
+    m, cid = msg_cid
+    ds = m.data_set
+    if ds is not None and not isinstance(ds, bytes):
+        m.data_set = ds.getvalue()
+    m.set_length()
+    return b''.join(p.encode() for p in m.encode(cid, maxlen))
+
+
+class LiveClient(object):
+    """one association over a real stepped provider: its peer's octets, its steps, its observable trace"""
+
+    def __init__(self, name, maxlen, ts_first, mid, payload, ending):
+        self.name = name
+        self.rq = request(name, maxlen, True, False, ts_first).encode()
+        self.msgs = [wire_of(echo(mid)), wire_of(store(mid + 1, 3, CT, payload)), wire_of(echo(mid + 2))]
+        self.ending = ending                 # 0 nothing, 1 peer sends an unrecognised PDU and keeps the connection
+        self.live = None                     # open, 2 peer aborts, 3 peer disconnects
+        self.step_no = 0
+        self.done = False
+
+    def steps_total(self):
+        return 3 + 2 * len(self.msgs) + (1 if self.ending else 0)
+
+    def step(self, ae):
+        from vt.harness import live as L
+        i = self.step_no
+        self.step_no += 1
+        if i == 0:
+            self.live = L.LiveAcceptor(ae, self.name)
+        elif i == 1:
+            self.live.deliver(self.rq)
+        elif i == 2:
+            self.live.establish()
+        elif i < 3 + 2 * len(self.msgs):
+            k, serve = divmod(i - 3, 2)
+            if serve:
+                self.live.serve_one()
+            else:
+                self.live.deliver(self.msgs[k])
+        else:
+            if self.ending == 1:
+                self.live.deliver(b'\x0b\x00\x00\x00\x00\x02\xab\xcd')
+            elif self.ending == 2:
+                self.live.deliver(pdu.AAbortPDU(0, 0).encode())
+            else:
+                self.live.peer_closes()
+            self.live.serve_one()
+        if self.step_no >= self.steps_total():
+            self.done = True
+
+    def later(self, mid):
+        """after time has passed: the provider thread runs, one more C-ECHO arrives and is served"""
+        self.live.pump.run()
+        if not self.ending:
+            self.live.deliver(wire_of(echo(mid)))
+            self.live.serve_one()
+
+    def trace(self):
+        lv = self.live
+        acc = lv.acc
+        ctxs = sorted((k, str(v.sop_class), str(v.supported_ts)) for k, v in acc.accepted_contexts.items())
+        dec = sorted((k, str(v.sop_class), str(v.supported_ts)) for k, v in (lv.prov.accepted_contexts or {}).items())
+        return (lv.wire(), ctxs, dec, acc.max_pdu_length, lv.errors, lv.pump.err, lv.pump.over_budget, lv.pump.state(),
+                lv.prov.timer._start_time is not None, lv.prov.dul_socket is not None, lv.sock.closed)
+
+
+class LiveEntity(Entity):
+    def on_receive_store(self, ctx, ds):
+        whole = ds.read()                    # the file the provider wrote: meta header (negotiated syntax) + data set
+        self.log.append(('store', ctx.id, str(ctx.sop_class), str(ctx.supported_ts), whole))
+        return 0xB000 + (whole[-1] % 8)
+
+
+def _live_run(pa_, pb_, sched, dt):
+    """-> (trace A, trace B, handler log); pb_ None = A alone; pa_ None = B alone"""
+    from vt import sim
+    from vt.harness import live as L
+    clock = sim.SimClock(1000)
+    with sim._no_tracing():                  # everything up to here is concrete: run it outside the tracer
+        L.install(clock)
+        applicationentity.tempfile = _Tempfile
+        ae = LiveEntity()
+        ca = LiveClient(*pa_) if pa_ else None
+        cb = LiveClient(*pb_) if pb_ else None
+        bit = 0
+        while not ((ca is None or ca.done) and (cb is None or cb.done)):
+            pick_b = (sched >> (bit % 8)) & 1
+            bit += 1
+            if ca is None or ca.done:
+                c = cb
+            elif cb is None or cb.done:
+                c = ca
+            else:
+                c = cb if pick_b else ca
+            c.step(ae)
+    clock.now = clock.now + dt               # time passes for everybody
+    if cb:
+        cb.later(900)
+    if ca:
+        ca.later(901)
+    return (ca.trace() if ca else None), (cb.trace() if cb else None), list(ae.log)
+
+
+@cond(bounds='two associations on one entity, each a real AssociationAcceptor over its own REAL provider (framing, state '
+             'machine, DIMSE decoder, ARTIM timer) stepped in the calling thread; both negotiate CT storage on context '
+             'id 3 but with different transfer syntaxes (A: symbolic order, B: the other one) and file-backed '
+             'reception; echo, store, echo on each; B ends normally / with an unrecognised PDU and a connection left '
+             'open / with an abort / by disconnecting (symbolic); steps interleaved by an 8-bit schedule word (one '
+             'instance per word); then the clock advances by a SYMBOLIC dt in 0..30 s and A serves one more C-ECHO. '
+             'Every association must put on the wire, hand to the handler (incl. the file meta header) and keep as '
+             'state exactly what it does when it runs alone',
+      family=lambda t: [dict(sched=s_) for s_ in (SCHEDULES if t == 'thorough' else
+                                                  (SCHEDULES[2], SCHEDULES[4], SCHEDULES[6], SCHEDULES[7]))],
+      timeout=300, thorough_timeout=1200)
+def interleaved_live(a_tsf: bool, ending: int, dt: int) -> bool:
+    """
+    pre: 0 <= ending <= 3 and 0 <= dt <= 30
+    post: _
+    """
+    sched = fam('sched')
+    ending = pick(ending, 0, 3)
+    a_tsf = bool(pick(int(a_tsf), 0, 1))
+    pa_ = ('CLIENT_A', 16384, 1 if a_tsf else 0, 100, b'\x11\x12\x13\x14', 0)
+    pb_ = ('CLIENT_B', 4096, 0 if a_tsf else 1, 200, b'\x26\x27', ending)
+    alone_a, _, log_a = _live_run(pa_, None, 0, dt)
+    _, alone_b, log_b = _live_run(None, pb_, 0, dt)
+    both_a, both_b, log = _live_run(pa_, pb_, sched, dt)
+    ok = both_a == alone_a and both_b == alone_b
+    ok = ok and len(log) == len(log_a) + len(log_b)
+    for e in log_a + log_b:
+        ok = ok and e in log
+    # sanity of the alone runs themselves: both stores were delivered with the association's own syntax
+    ok = ok and len(log_a) == 4 and len(log_b) == (3 if ending else 4) and alone_a[5] is None
+    deep(ok and ending == 1 and dt > 10)
+    return ok
+
+
 @cond(bounds='message ids handed out by the convenience API: n = 1..6 calls (symbolic) in one thread give n distinct values; '
              'a copy of the presentation-context definition list is not affected by a later add_scu with k = 1..3 '
              'classes (symbolic) on the entity', timeout=120)
@@ -249,5 +397,26 @@ def ids_and_copies(n: int, k: int) -> bool:
     return ok
 
 
+TRACE_FIELDS = ['wire', 'accepted contexts (association)', 'accepted contexts (provider / decoder)', 'max PDU length',
+                'errors seen by the acceptor', 'provider loop died', 'loop over budget', 'protocol state', 'ARTIM running',
+                'socket held', 'socket closed']
+
+
 def explain(cname, args, famv):
-    return 'each association must behave exactly as when it runs alone on a fresh entity'
+    if cname != 'interleaved_live':
+        return 'each association must behave exactly as when it runs alone on a fresh entity'
+    a_tsf, ending, dt = args['a_tsf'], args['ending'], args['dt']
+    pa_ = ('CLIENT_A', 16384, 1 if a_tsf else 0, 100, b'\x11\x12\x13\x14', 0)
+    pb_ = ('CLIENT_B', 4096, 0 if a_tsf else 1, 200, b'\x26\x27', ending)
+    alone_a, _, log_a = _live_run(pa_, None, 0, dt)
+    _, alone_b, log_b = _live_run(None, pb_, 0, dt)
+    both_a, both_b, log = _live_run(pa_, pb_, famv['sched'], dt)
+    out = []
+    for nm, al, bo in (('A', alone_a, both_a), ('B', alone_b, both_b)):
+        for f, x, y in zip(TRACE_FIELDS, al, bo):
+            if x != y:
+                out.append('association %s, %s: alone %s | next to the other %s' % (nm, f, repr(x)[:300], repr(y)[:300]))
+    for e in log_a + log_b:
+        if e not in log:
+            out.append('handler call missing / different next to the other association: %s' % (repr(e)[:300],))
+    return '\n'.join(out) or 'traces equal; handler log differs in length: %d vs %d + %d' % (len(log), len(log_a), len(log_b))
